@@ -40,6 +40,32 @@ Theorem C01_polled_flags : forall dt d s v,
   d_state d' = s /\ d_value d' = v /\ iter_names (d_events d') = table (d_state d) s.
 Proof. exact data_update_fields. Qed.
 
+(* ---- lifted to whole frames (Proofs/FrameLiftP.v): the evaluation sequence of ContextInstances::update ---- *)
+From BEI Require Import Model.Frame Spec.Events Spec.ReadSpec Proofs.StateP Proofs.ActionP Proofs.InstanceP Proofs.ConsumeP Proofs.RegistryP Proofs.FanoutP Proofs.FrameLiftP.
+Theorem C01_every_evaluation_of_a_frame : forall tm r c gs,
+  Forall (fun e =>
+    let a := ab_id (er_bind e) in
+    let d := old_data (er_table e) a in
+    exists (s : state) (v : value) (bl : bool),
+      let d' := data_update (vdelta tm) d s v in
+      vdim v = aid_dim a /\
+      lookup a (o_actions (er_out e)) = Some d' /\
+      (forall b, b <> a -> lookup b (o_actions (er_out e)) = lookup b (er_table e)) /\
+      rec_events e = (if bl then [] else flat_map (fun k => map (mk_event a d' k) (er_recipients e)) (table (d_state d) s)))
+    (evaluations tm r c gs).
+Proof. exact evaluations_result. Qed.
+Theorem C01_frame_is_its_evaluations : forall sc w f fo,
+  frame sc w f = Some fo ->
+  fo_main fo = flat_map rec_events (frame_evals w f) /\
+  fo_log fo = flat_map rec_log (frame_evals w f) /\
+  map log_id (fo_log fo) = flat_map (rec_ids (f_raw f)) (frame_evals w f) /\
+  threaded (consume_list [] (update_state (f_raw f))) (frame_evals w f) /\
+  Forall (rec_ok (frame_time f) (f_raw f)) (frame_evals w f) /\
+  Forall (rec_result (frame_time f)) (frame_evals w f) /\
+  Forall (rec_durations (frame_time f)) (frame_evals w f) /\
+  (forall e, In e (frame_evals w f) -> exists g, In g (w_reg w) /\ rec_source g e).
+Proof. exact frame_records. Qed.
+
 Example C01_nonvacuous :
   table SNone SFired = [EStarted; EFired] /\ table SOngoing SNone = [ECanceled] /\
   In EStarted (table SNone SOngoing).
@@ -50,3 +76,5 @@ Print Assumptions C01_started_first.
 Print Assumptions C01_payload.
 Print Assumptions C01_action_frame.
 Print Assumptions C01_polled_flags.
+Print Assumptions C01_every_evaluation_of_a_frame.
+Print Assumptions C01_frame_is_its_evaluations.
